@@ -48,8 +48,10 @@ __CPROVER_requires(__CPROVER_w_ok(b__p, sizeof(double)) && __CPROVER_w_ok(d__p, 
 __CPROVER_assigns(*b__p, *d__p, gv_sqrt_arg, gv_sqrt_ret, gv_atan2_y, gv_atan2_x, gv_atan2_ret, gv_atan2_calls)
 __CPROVER_ensures(*d__p >= 0)
 __CPROVER_ensures(gv_sqrt_ret < 1e-6 ==> (*b__p == 0 && *d__p == 0 && gv_atan2_calls == __CPROVER_old(gv_atan2_calls)))
-__CPROVER_ensures(gv_sqrt_ret >= 1e-6 ==> (*d__p == gv_sqrt_ret && gv_atan2_calls == __CPROVER_old(gv_atan2_calls) + 1 &&
-                                           gv_atan2_y == yb - ya && gv_atan2_x == xb - xa))
+__CPROVER_ensures(gv_sqrt_ret >= 1e-6 ==> *d__p == gv_sqrt_ret)
+__CPROVER_ensures(gv_sqrt_ret >= 1e-6 ==> gv_atan2_calls == __CPROVER_old(gv_atan2_calls) + 1)
+__CPROVER_ensures(gv_sqrt_ret >= 1e-6 ==> gv_atan2_y == yb - ya)
+__CPROVER_ensures(gv_sqrt_ret >= 1e-6 ==> gv_atan2_x == xb - xa)
 __CPROVER_ensures(*b__p >= 0)
 __CPROVER_ensures(*b__p < 2 * M_PI)
 __CPROVER_ensures(gv_sqrt_ret >= 1e-6 ==> (*b__p == gv_atan2_ret || *b__p == gv_atan2_ret + 2 * M_PI))
@@ -58,21 +60,40 @@ GV_CANARY("bearing_distance entry");
 //@ end
 
 //@ harness
+#ifdef GV_H_ONE
 void h_bearing(void)
+{
+  double ya, xa, yb, xb, b1, d1;
+  __CPROVER_assume(INR(ya) && INR(xa) && INR(yb) && INR(xb));
+#ifdef GV_EXCL_TINY_NEG   /* exclusion predicate of the finding "bearing == 2 pi": the target is not below the +x axis by
+                             less than 1e-9 of the distance (dy in (-1e-9 |dx|, 0), dx > 0) */
+  __CPROVER_assume(!(yb - ya < 0 && xb - xa > 0 && ya - yb < 1e-9 * (xb - xa)));
+#endif
+  double w_ya = ya, w_xa = xa, w_yb = yb, w_xb = xb;
+  gv_atan2_calls = 0;
+  bearing_distance(ya, xa, yb, xb, &b1, &d1);
+  GV_CANARY("h_bearing end");
+}
+#endif
+
+#ifdef GV_H_TWO
+/* antisymmetric pattern of C18 (no contract instrumentation: the function is called twice):
+   whenever bearing(a,b) and bearing(b,a) both reach atan2, the second call has the negated arguments of the first.
+   (distance(a,b) == distance(b,a) needs (-dy)^2 + (-dx)^2 == dy^2 + dx^2 bit for bit and a functional model of
+   sqrt: two multiplier circuits the SAT back end does not relate in 400 s -- not decided here) */
+void h_antisym(void)
 {
   double ya, xa, yb, xb, b1, d1, b2, d2;
   __CPROVER_assume(INR(ya) && INR(xa) && INR(yb) && INR(xb));
-  double w_ya = ya, w_xa = xa, w_yb = yb, w_xb = xb;
   gv_atan2_calls = 0;
   bearing_distance(ya, xa, yb, xb, &b1, &d1);
   double y1 = gv_atan2_y, x1 = gv_atan2_x;
   int c1 = gv_atan2_calls;
   bearing_distance(yb, xb, ya, xa, &b2, &d2);
-  /* antisymmetric pattern of C18: atan2 is called with negated arguments */
-  /* (distance(a,b) == distance(b,a) needs (-dy)^2 + (-dx)^2 == dy^2 + dx^2 bit for bit and a functional model of
-     sqrt: two multiplier circuits the SAT back end does not relate in 400 s -- not decided here) */
-  __CPROVER_assert(c1 == 0 || (gv_atan2_calls == 2 && gv_atan2_y == -y1 && gv_atan2_x == -x1),
+  __CPROVER_assert(!(c1 == 1 && gv_atan2_calls == 2) || (gv_atan2_y == -y1 && gv_atan2_x == -x1),
                    "bearing(b,a) takes atan2 of the negated coordinate differences of bearing(a,b)");
-  GV_CANARY("h_bearing end");
+  if (c1 == 1 && gv_atan2_calls == 2) GV_CANARY("h_antisym both calls reach atan2");
+  GV_CANARY("h_antisym end");
 }
+#endif
 //@ end
